@@ -73,6 +73,8 @@ def run(tier):
     out.rule = ('every importable module of <= %d items (depth <= 2) over C16_Items x 2 module docstrings in Collect.tla; static and dynamic '
                 'collection under three styles (sampled where stated)' % b['n'])
     collectlib.run_space(out, 'C16_Items<=%d' % b['n'], 'C16_Items', 'C07_ModDocs', b['n'], _one, sig, limit=b['limit'], timeout=3600)
+    # definitions inside except / else / finally / case / if-else / for-else clauses and for bodies (all executed at import)
+    collectlib.run_space(out, 'C16 clauses', 'Clause_Items', 'C07_ModDocs', 3, _one, sig, limit=b['limit'] or 60000, timeout=3600)
     if b.get('core'):
         # longer modules over the core alphabet (21 item kinds)
         collectlib.run_space(out, 'C16_Core<=%d' % b['core'], 'C16_Core', 'C07_ModDocs', b['core'], _one, sig, limit=b['corelimit'], timeout=5400)
